@@ -14,6 +14,7 @@ RULE = ("Inputs: one template per rewrite rule (51 templates: each rule's left-h
         "holes, all parameter relations m=n / gcd>1 / coprime / parities / equal-different bases / base 1 / base e, "
         "every (parent, child, argument position) pair of the 13 non-leaf constructors with sign-varied holes, "
         "generated positions inside n-ary nodes and inside generated contexts, pairs of interacting redexes), random "
+        "EXHAUSTIVELY all depth-3 skeletons that C11 enumerates (at four fixed points with both signs), random "
         "trees/DAGs, raw symbolic partials of random trees (forward and reverse), and 300-900 node inputs that exhaust "
         "the 1000-step budget.  The harness drives _take_reduction_step itself and checks EVERY step e_k -> e_k+1, the "
         "normal-form pass and the end-to-end _normalize() at 4 generated points: reference(e_k) DEFINED => "
@@ -28,6 +29,7 @@ ASSUMPTIONS = [
 ]
 
 NPOINTS = 4
+EXHAUSTIVE_PARTS = ["skeletons (same enumeration as C11: complete for unary chains, unary parents and 3-ary nodes; binary parents 1/16 slice in the quick tier, complete in the thorough tier)"]
 
 
 def rationals():
@@ -185,7 +187,13 @@ def check(stats, m, envs, rat_points=None, template=None, sub="steps", limit=150
 
 
 def draw_points(data, names, k=NPOINTS):
-    return [data.draw(S.points(names, extra=False)) for _ in range(k)]
+    """k points; the second is the first with all coordinates made positive, the third its mirror image: every
+    variable is seen positive and negative."""
+    p0 = data.draw(S.points(names, extra=False))
+    pos = {n: (abs(v) if v != 0 else 1.5) for n, v in p0.items()}
+    neg = {n: -v for n, v in pos.items()}
+    out = [p0, pos, neg] + [data.draw(S.points(names, extra=False)) for _ in range(max(0, k - 3))]
+    return out[:max(k, 3)]
 
 
 def make_redex(stats):
@@ -327,11 +335,51 @@ def big_inputs(draw, names):
             else:
                 kids.append(draw(S.trees(names, depth=2, const_bias=3)))
         return (t, tuple(kids))
+    if draw(st.booleans()):
+        # flat and wide: hundreds of small REDUCIBLE terms (rule templates) directly under the root, which therefore
+        # still holds all its constants / negations / reciprocals when the 1000-step budget runs out
+        t = draw(st.sampled_from(["Add", "Add", "Add", "Multiply"]))
+        total = ("Add", "Multiply", "Minus", "Negation", "NthPower", "Sine", "Cosine")      # defined everywhere
+
+        def decorated():
+            x = draw(S.trees(names, depth=2, tags=total, const_bias=3))
+            for _ in range(draw(st.integers(1, 3))):
+                w = draw(st.integers(0, 5))
+                x = [("Negation", ("Negation", x)), ("Multiply", (("Constant", 1), x)), ("Add", (x, ("Constant", 0))),
+                     ("NthPower", x, 1), ("Sine", ("Negation", x)), ("Minus", x, ("Constant", 0))][w]
+            return x
+        pool = [decorated() for _ in range(draw(st.integers(3, 8)))]
+        k = draw(st.integers(120, 260)) if t == "Add" else draw(st.integers(40, 80))
+        picks = draw(st.lists(st.integers(0, len(pool) - 1), min_size=k, max_size=k))
+        kids = [M.clone(pool[i]) if j % 3 else pool[i] for j, i in enumerate(picks)]
+        for _ in range(draw(st.integers(1, 5))):
+            w = draw(st.integers(0, 4))
+            extra = ("Constant", draw(st.sampled_from([-2, 5, 0, 1, -1, 0.5, 3, -0.25, -7, 4]))) if w <= 2 else \
+                ("Negation", draw(S.trees(names, depth=1))) if w == 3 else ("Reciprocal", draw(S.trees(names, depth=1, const_bias=1)))
+            kids.insert(draw(st.integers(0, len(kids))), extra)
+        m = (t, tuple(kids))
+        if draw(st.integers(0, 3)) == 0:
+            m = ("Cosine", m) if draw(st.booleans()) else ("Minus", m, draw(S.trees(names, depth=1)))
+        return m
     m = block(3)
     tries = 0
-    while M.size(m) < 300 and tries < 6:
+    while M.size(m) < 450 and tries < 8:
         m = (draw(st.sampled_from(["Add", "Multiply"])), (m, block(2), draw(S.trees(names, depth=2))))
         tries += 1
+    # what the ROOT node still holds when the budget runs out is handed to the normal-form pass unreduced:
+    # put constants (any sign, zero, one), negations and reciprocals directly under the root
+    t = m[0]
+    kids = list(m[1])
+    for _ in range(draw(st.integers(0, 4))):
+        w = draw(st.integers(0, 3))
+        extra = ("Constant", draw(st.sampled_from([-2, 5, 0, 1, -1, 0.5, 3, -0.25]))) if w <= 1 else \
+            ("Negation", draw(S.trees(names, depth=1))) if w == 2 else ("Reciprocal", draw(S.trees(names, depth=1, const_bias=1)))
+        kids.insert(draw(st.integers(0, len(kids))), extra)
+    m = (t, tuple(kids))
+    if draw(st.integers(0, 3)) == 0:
+        m = (draw(st.sampled_from(["Negation", "Sine", "Exponential"])), m) if draw(st.booleans()) else ("Minus", m, draw(S.trees(names, depth=1)))
+        if m[0] == "Exponential":
+            m = ("Exponential", m[1], 2)
     return m
 
 
@@ -359,10 +407,35 @@ def make_big(stats):
     return test
 
 
+SKELETON_POINTS = [{"x": -3, "y": 2}, {"x": 0.5, "y": -0.5}, {"x": 2, "y": 3}, {"x": -1.5, "y": -2}, {"x": 1.5, "y": 0.25}]
+
+
+def run_skeletons(tier):
+    """EXHAUSTIVE small scope: every skeleton C11 enumerates (all unary chains of three parameterised constructors, all
+    unary parents over depth-2 terms, all 3-ary sums/products over rule-relevant children; binary parents: 1/16 slice in
+    the quick tier, all in the thorough tier) goes through the same step-by-step semantic check at four fixed points
+    with both signs of x and y."""
+    from . import c11
+
+    def run(stats, seed, shard, nshards):
+        for name, sliceable, gen in c11.skeleton_blocks():
+            i = 0
+            for m in gen():
+                i += 1
+                if i % nshards != shard:
+                    continue
+                if sliceable and tier == "quick" and (i // nshards) % 16 != (seed + 5) % 16:
+                    continue
+                stats.count("block:" + name)
+                check(stats, m, SKELETON_POINTS, None, sub="skeleton", end_to_end=False)
+    return run
+
+
 def parts(tier):
     n = 6000 if tier == "quick" else 120000
     big = 160 if tier == "quick" else 3200
-    ps = [hyp_part("redex", make_redex, int(n * 0.4)), hyp_part("pairs", make_pairs, int(n * 0.5)),
+    ps = [run_part("skeletons", run_skeletons(tier)),
+          hyp_part("redex", make_redex, int(n * 0.4)), hyp_part("pairs", make_pairs, int(n * 0.5)),
           hyp_part("random", make_random, int(n * 0.1)),
           hyp_part("rational", make_rational, int(n * 0.15)), hyp_part("partials", make_partials, int(n * 0.2)),
           hyp_part("big", make_big, big)]
